@@ -209,6 +209,12 @@ class Interp:
                 return ("fn", c["fn"])
             if "str" in c:
                 return Tok("str:%s" % c["str"])
+            if c.get("ty") == "&str" and (c.get("repr") or "").startswith('"'):
+                try:
+                    import ast as _ast
+                    return Tok("str:%s" % _ast.literal_eval(c["repr"]))
+                except Exception:
+                    pass
             if "def" in c:
                 return Tok("const:%s" % c["def"])
             if c.get("repr") == "()":
@@ -390,7 +396,7 @@ class Interp:
         if k == "agg":
             kind = r[1]
             vals = [self.operand(fid, o) for o in r[2]]
-            if kind[0] == "tuple":
+            if kind[0] in ("tuple", "array"):
                 return ("tuple", vals)
             if kind[0] == "adt":
                 if len(kind) > 3 and isinstance(kind[2], str):
